@@ -62,6 +62,10 @@ CLAIMS = {
    technique="exhaustive abstract evaluation of the version predicates over {0,1,2}^6 and of the enable/event gating functions over their finite outcome domains (clang CFG path exploration)",
    text="version_is_compatible and the open-coded test in ovni_version_check_str are evaluated from their CFGs on all 729 (want,have) triples over {0,1,2} (every ordering of major/minor/patch) and must equal the semver relation; should_enable, model_version_probe (0-2 threads x {-1,0,1}), model_probe ({-1,0,1} x enable_all) and model_event (registered x enabled x hook result) are evaluated over their complete finite outcome domains; each model's probe must use its own spec; every version_parse result must be tested. Not decided: version_parse's handling of malformed strings (strtol semantics).",
    design_ref="§4 C14"),
+ "C15": dict(
+   technique="phase typestate over the call graph (pointer fields allocated in a later initialisation phase must not be dereferenced from an earlier one), call-order analysis of system_init, abstract evaluation of comparators / sort selection / list construction / index numbering, exhaustive small-domain evaluation of the merge predicates, error propagation",
+   text="Decides the named clauses: no pointer field of loom/proc/thread/cpu allocated in init_end_system is dereferenced by code reachable from create_system (the crash of the metadata loader); system_init runs its six phases in order; by_pid/by_rank/by_tid/by_phyid/cmp_loom_rank order by their key and the sorts select them as documented; set_sort_criteria sorts by rank only when every loom has ranks; the virtual CPU follows the physical CPUs and global indices follow list order; load_appid, load_rank (16 cases) and load_cpus (6 cases) accept repeated attributes only when equal and reject contradictions, duplicate TIDs are refused, and these errors reach the exit status. Not decided: independence from the distribution of attributes over threads in general (a metamorphic property over inputs) and the uthash/utlist sort implementations.",
+   design_ref="§4 C15"),
  "C18": dict(
    technique="abstract interpretation of handler dispatch over all 65536 (category,value) codes per model vs. the constant event catalogue (clang AST/CFG facts)",
    text="Exhaustive over the finite code space: for each of the 8 models the set of (c,v) codes the event hook can accept is computed exactly from the CFGs and constant tables and compared with the declared catalogue in both directions; declared payload shapes are bound to ev->payload_size/is_jumbo and every declared event must still be accepted and every constant-offset payload read must lie inside the declared payload; catalogue self-consistency is evaluated with ev_spec.c's grammar. Not decided: ovnidump's formatted output for all argument values.",
